@@ -115,6 +115,45 @@ def c19_model(ctx):
     return meta, ideal, histr, extra, caught, cex
 
 
+def tree_paths(edges, init_pred, tag):
+    """History mode: the transition graph is a forest (the operation history is part of the state) with the open
+    requests as self-loops.  One path per leaf (root to leaf); the self-loops of a node are put on the first path
+    that visits it.  Linear in the number of edges (vf.path_cover is quadratic on large trees)."""
+    nodes, kids, loops = {}, {}, {}
+    seen = set()
+    for e in edges:
+        ks, kt = vf.canon(e["s"]), vf.canon(e["t"])
+        ek = (ks, vf.canon(e["a"]), kt)
+        if ek in seen:
+            continue
+        seen.add(ek)
+        nodes.setdefault(ks, e["s"])
+        nodes.setdefault(kt, e["t"])
+        if ks == kt:
+            loops.setdefault(ks, []).append(e["a"])
+        else:
+            kids.setdefault(ks, []).append((e["a"], kt))
+    paths, visited = [], set()
+    for root in [k for k, st in nodes.items() if init_pred(st)]:
+        stack = [(root, [])]          # (node, steps from the root; open requests only of nodes first visited on this way)
+        while stack:
+            k, steps = stack.pop()
+            if k not in visited:
+                visited.add(k)
+                steps = steps + [{"a": a, "t": nodes[k]} for a in loops.get(k, [])]
+            ch = kids.get(k, [])
+            if not ch:
+                paths.append({"init": nodes[root], "steps": steps, "tag": tag})
+                continue
+            # one child inherits the open requests executed so far; the others replay only the route operations
+            bare = [st for st in steps if st["a"].get("act") != "Open"]
+            for i, (a, kt) in enumerate(ch):
+                stack.append((kt, (steps if i == len(ch) - 1 else bare) + [{"a": a, "t": nodes[kt]}]))
+    if len(visited) != len(nodes):
+        raise vf.Infra("tree_paths: %d of %d states not reachable from the initial states" % (len(nodes) - len(visited), len(nodes)))
+    return paths, len(nodes), len(seen)
+
+
 def c19_replay(ctx, meta, paths, corrupt=None):
     inp = os.path.join(ctx.work, "exitpolicy_paths_%d.json" % len(paths))
     vf.write_json(inp, {"meta": meta, "paths": paths})
